@@ -14,7 +14,9 @@ def count_before_jobs(ctx):
     cl = ctx.cls('processpool.GetObjectSubmitter')
     n = 0
     for m in cl.methods.values():
-        jobs = [c for c in own_calls(m.node) if (dotted(c.func) or '') == 'self._submit_get_object_job']
+        # a job is queued through the helper, or by putting a GetObjectJob on the worker queue directly
+        jobs = [c for c in own_calls(m.node) if (dotted(c.func) or '') == 'self._submit_get_object_job' or
+                ((dotted(c.func) or '') == 'GetObjectJob' and kwarg(c, 'transfer_id') is not None and isinstance(c._parent, ast.Call) and (dotted(c._parent.func) or '') == 'self._worker_queue.put')]
         if not jobs:
             continue
         n += 1
